@@ -253,7 +253,7 @@ Section Scenarios2.
        balanced (snd (fst (fst r)))).
   Proof.
     intros W Wx. pose proof W as [Ws Wc].
-    destruct x as [y|ids|avail addr extra addr_b pct|p n amt addr extra coin|p n amt addr extra|p n amt|ok es|l|l| |l]; cbn [run_op2].
+    destruct x as [y|ids|avail addr extra addr_b pct|p n amt addr extra coin|p n amt addr extra|p n amt|ok es|l|l| |p es|l]; cbn [run_op2].
     - (* old operations *)
       pose proof (run_op_spec utxos WU cfg y s o W Wx) as H. cbn zeta in H.
       destruct (run_op utxos y s o) as [[res s'] tx]. cbn [fst snd] in *. destruct H as [H1 [H2 H3]].
@@ -317,6 +317,37 @@ Section Scenarios2.
       destruct W as [Wst Wcf]. split; [|exact Wcf].
       unfold state_wf, state_wfb in *. cbn [s_inputs s_outputs s_mint set_s_mint].
       apply andb_true_iff in Wst. destruct Wst as [Wio _]. rewrite Wio. reflexivity.
+    - (* set_mint_asset (deprecated) *)
+      destruct (forallb (fun e : bytes * Z => in_range (snd e) && negb (snd e =? 0)%Z) es) eqn:R;
+        [|apply wrap_spec; [apply pure_err_spec; exact W | intros; discriminate]].
+      assert (Hmax : Forall (fun e : bytes * Z => (snd e <= int_max)%Z) (mint_assets_map es)).
+      { unfold mint_assets_map.
+        assert (G : forall l acc, Forall (fun e : bytes * Z => (snd e <= int_max)%Z) acc ->
+                      forallb (fun e : bytes * Z => in_range (snd e) && negb (snd e =? 0)%Z) l = true ->
+                      Forall (fun e : bytes * Z => (snd e <= int_max)%Z)
+                             (fold_left (fun m (e : bytes * Z) => am_insert name_cmp (fst e) (snd e) m) l acc)).
+        { induction l as [|e l IH]; intros acc Ha Hl; [exact Ha|]. cbn [fold_left]. cbn [forallb] in Hl.
+          apply andb_true_iff in Hl. destruct Hl as [He Hl]. apply andb_true_iff in He. destruct He as [He _].
+          apply IH; [|exact Hl]. apply Forall_forall. intros x Ix. apply (am_in_insert name_cmp) in Ix.
+          destruct Ix as [->|Ix]; [cbn [snd]; apply in_range_max; exact He | rewrite Forall_forall in Ha; apply Ha; exact Ix]. }
+        apply G; [constructor | exact R]. }
+      assert (Hset : forall l m, mint_wfb m = true -> Forall (fun e : bytes * Z => (snd e <= int_max)%Z) l ->
+                       mint_wfb (snd (mint_set_all p l m)) = true).
+      { induction l as [|[n z] l IH]; intros m Wm Hl; [exact Wm|]. cbn [mint_set_all].
+        inversion Hl as [|? ? Hz Hl']. subst. cbn [snd] in Hz.
+        destruct (mint_update true p n z m) as [m'| | |] eqn:E; try exact Wm.
+        apply IH; [eapply mint_update_wf; eassumption | exact Hl']. }
+      destruct (s_mint s) as [m|] eqn:Em.
+      + assert (W1 : WFc (set_s_mint (Some (snd (mint_set_all p (mint_assets_map es) m))) s)).
+        { apply WF_set_mint; [exact W|]. apply Hset; [|exact Hmax].
+          pose proof (opt_mint_wf s Ws) as Wm. rewrite Em in Wm. exact Wm. }
+        cbv zeta. apply wrap_spec; [|intros; discriminate].
+        split; [|apply pure_op_nobool]. apply pure_op_wf; [exact W1|].
+        intros s'. destruct (fst (mint_set_all p (mint_assets_map es) m)); [|discriminate]. intros E'. injection E' as <-. exact W1.
+      + cbv zeta. apply wrap_spec; [|intros; discriminate].
+        split; [|apply pure_op_nobool]. apply pure_op_wf; [exact W|].
+        intros s'. destruct (fst (mint_set_all p (mint_assets_map es) [])); [|discriminate]. intros E'. injection E' as <-.
+        apply WF_set_mint; [exact W|]. apply Hset; [reflexivity | exact Hmax].
     - (* proposals with identities *)
       apply wrap_spec; [|intros; discriminate]. split; [|apply pure_op_nobool].
       apply pure_op_wf; [exact W|]. intros s' E'. injection E' as <-. apply (WF_fields cfg s); auto.
